@@ -1,5 +1,5 @@
 (* Driver for the extracted C06 model.  stdin: one history per line, `<id> <op>;<op>;...`; stdout one line
-   per history: `<id>\t<cached run>\t<uncached run>\t<first known-class step>`.
+   per history: `<id>\t<cached run>\t<uncached run>\t<first irregular-accessor-slot step>`.
    A run is the outputs of its operations joined by `|`, an operation's outputs are blank-separated tokens
    (see checks/c06.py for the token grammar shared with the JavaScript side), `PANIC` ends a run.
    Ops:  A s|u <p|->   D o k [v=V] [w=B] [g=V] [s=V] [e=B] [c=B]   X o k   P o <p|->   E o   Z o
@@ -84,15 +84,6 @@ let srun (r : out list option list) : string =
   String.concat "|" (List.map (fun x -> match x with
     | Some l -> String.concat " " (List.map sout l)
     | None -> "PANIC") r)
-let sclass (c : kclass) : string =
-  match c with
-  | KProtoLayout -> "proto-entry-after-prototype-layout-change"
-  | KUniqueAttr -> "unique-shape-same-width-attribute-change"
-  | KUniqueShadow -> "unique-shape-in-place-insert-shadows-proto-entry"
-  | KOther -> "other-dependency-change"
-  | KSetterMissing -> "cached-set-on-accessor-without-setter"
-  | KGetterIrregular -> "cached-get-on-irregular-accessor-slot"
-
 let () =
   try
     while true do
@@ -105,8 +96,8 @@ let () =
         let ops = List.map parse_op (List.filter (fun s -> String.trim s <> "") (String.split_on_char ';' body)) in
         let rc = run true init ops in
         let ru = run false init ops in
-        let k = (match first_known init ops N0 with
-                 | Some (i, c) -> si i ^ ":" ^ sclass c
+        let k = (match first_irregular init ops N0 with
+                 | Some i -> si i ^ ":cached-hit-on-irregular-accessor-slot"
                  | None -> "-") in
         print_string (id ^ "\t" ^ srun rc ^ "\t" ^ srun ru ^ "\t" ^ k ^ "\n")
       end
